@@ -96,7 +96,7 @@ func blsDecode() {
 			return "done"
 		})
 		if res != "done" {
-			st.addS(k.id+" verdict", res)
+			st.addS(k.id+" panic", res)
 		}
 	}
 
@@ -153,7 +153,7 @@ func blsDecode() {
 			return "done"
 		})
 		if res != "done" {
-			st.addS(k.id+" verdict", res)
+			st.addS(k.id+" panic", res)
 		}
 	}
 
@@ -574,7 +574,8 @@ func blsSpock() {
 
 // ---- threshold key generation, share signing, reconstruction (stateless and stateful)
 func blsThreshold() {
-	st := newStream("bls.thr", 400, 25)
+	st := newStream("bls.thr", 1<<30, 25)      // reconstruction / inspector results: all verbatim
+	ks := newStream("bls.thr.keys", 300, 25) // key shares and signature shares: bulk
 	type nt struct{ n, t int }
 	cfgs := []nt{{2, 1}, {3, 1}, {3, 2}, {5, 2}, {10, 4}, {10, 9},
 		// n=20: t+1 signers straddle the 8-index batches of the Lagrange coefficient loop
@@ -598,13 +599,13 @@ func blsThreshold() {
 		st.add(id+" group-pk", gpk.Encode())
 		shares := make([]crypto.Signature, c.n)
 		for i := range sks {
-			st.add(fmt.Sprintf("%s sk[%d]", id, i), sks[i].Encode())
-			st.add(fmt.Sprintf("%s pk[%d]", id, i), pks[i].Encode())
+			ks.add(fmt.Sprintf("%s sk[%d]", id, i), sks[i].Encode())
+			ks.add(fmt.Sprintf("%s pk[%d]", id, i), pks[i].Encode())
 			if !sks[i].PublicKey().Equals(pks[i]) {
-				st.addS(fmt.Sprintf("%s pk[%d] mismatch", id, i), "sk.PublicKey() != pk share")
+				ks.addS(fmt.Sprintf("%s pk[%d] mismatch", id, i), "sk.PublicKey() != pk share")
 			}
 			shares[i], _ = sks[i].Sign(msg, kmac)
-			st.add(fmt.Sprintf("%s share[%d]", id, i), shares[i])
+			ks.add(fmt.Sprintf("%s share[%d]", id, i), shares[i])
 		}
 		// signer sets: first t+1, last t+1, every (n/(t+1))-th, seeded permutations (all n offered,
 		// only the first t+1 are used), the top indices
@@ -738,6 +739,7 @@ func blsThreshold() {
 		st.addS(fmt.Sprintf("EnoughShares(%d,%d)", c[0], c[1]), vS(ok, err))
 	}
 	st.close()
+	ks.close()
 }
 
 func trunc(s []int, n int) []int {
